@@ -1812,6 +1812,12 @@ def w_terms_layout(failure, tier):
              ("terms-size-per-segment", {"type": "terms", "field": "tag", "size": 2}),
              ("terms-min-doc-count-per-segment", {"type": "terms", "field": "tag", "size": 10, "min_doc_count": 2}),
              ("terms-min-doc-count-per-segment", {"type": "terms", "field": "tag", "size": 10, "min_doc_count": 3})]
+    add["numeric_fields"] = [{"name": "n", "i64": True, "fast": True, "stored": True}]
+    for i, d in enumerate(alld):
+        d["n"] = {"a": 1, "b": 5, "c": 9, "d": 13, "e": 17}[d["tag"]]
+    cases += [("histogram-min-doc-count-per-segment", {"type": "histogram", "field": "n", "interval": 2.0, "min_doc_count": 2}),
+              ("rare-terms-max-doc-count-per-segment", {"type": "rare_terms", "field": "tag", "max_doc_count": 2}),
+              ("significant-terms-min-doc-count-per-segment", {"type": "significant_terms", "field": "tag", "min_doc_count": 2, "size": 10})]
     n = 0
     for tag, agg in cases:
         if tag in skip:
@@ -1826,7 +1832,7 @@ def w_terms_layout(failure, tier):
             n += 1
         if any(r[1] != res[0][1] for r in res):
             return dict(found=True, cmd='%s search <<< hex(json)' % BIN, case=tag,
-                        input='11 documents with tags a x3 (one per segment), b x2, c x2, d x2, e x2 (split over two segments); %s' % _json.dumps(agg),
+                        input='11 documents with tags a x3 (one per segment), b x2, c x2, d x2, e x2 (split over two segments), n = 1 / 5 / 9 / 13 / 17 by tag; %s' % _json.dumps(agg),
                         observed='; '.join('%d segment(s): %s' % r for r in res[1:]), expected='%s (the single-segment answer: counts of the corpus, limit and threshold applied to them)' % res[0][1])
     return dict(found=False, note='terms limits and thresholds: %d (aggregation, layout) combinations give the single-segment answer%s' % (n, '' if not skip else ' (cases of open known findings skipped: %s)' % sorted(skip)))
 
@@ -1876,6 +1882,10 @@ GENERATORS = {
     ('U40', 'nested_keyword_value'): w_nested_types,
     ('U40', 'nested_numeric_value'): w_nested_types,
     ('U49', 'terms_finish_cut'): w_terms_layout,
+    ('U49', 'terms_finalize_cut'): w_terms_layout,
+    ('U50', 'histogram_finish_keep'): w_terms_layout,
+    ('U50', 'significant_finish_keep'): w_terms_layout,
+    ('U50', 'rare_finish_keep'): w_terms_layout,
     ('U48', 'composite_source_values'): w_composite,
     ('U7', 'composite_keep_after'): w_composite,
     ('U7', 'composite_page_cut'): w_composite,
